@@ -116,7 +116,19 @@ def tapped_refine(field, cand, **kw):
         rec["cost_x"] = 0.5 * float(np.sum(np.asarray(fun(np.array(res.x, copy=True))) ** 2))
         return res
 
-    ia.optimize.least_squares = wrapper
+    orig_dil = ia.ndimage.binary_dilation
+
+    def dil(mask, *a, **k):
+        res = orig_dil(mask, *a, **k)
+        rec["dilation"] = (np.array(mask, copy=True), k.get("iterations", a[1] if len(a) > 1 else 1), int(np.sum(res)))
+        return res
+
+    def wrapper2(fun, x0, **k):
+        rec["n_residuals"] = int(np.size(fun(np.array(x0, dtype=float, copy=True))))
+        return wrapper(fun, x0, **k)
+
+    ia.optimize.least_squares = wrapper2
+    ia.ndimage.binary_dilation = dil
     try:
         out = ia.refine_droplet(field, cand, **kw)
         return ("ok", out, rec)
@@ -124,6 +136,7 @@ def tapped_refine(field, cand, **kw):
         return ("err", type(e).__name__ + ": " + str(e)[:80], rec)
     finally:
         ia.optimize.least_squares = orig
+        ia.ndimage.binary_dilation = orig_dil
 
 
 def periodic_axes(grid):
@@ -232,6 +245,18 @@ def run_cases(ck: Check, n: int):
             lv_min, lv_max = x0[-2], rec["ub"][-2]
         else:
             lv_min, lv_max = 0.0, 0.0
+        # the fitted region: the candidate's boolean image dilated 1 + int(2 w) times (in cells), nothing else
+        if "dilation" in rec:
+            from scipy import ndimage as _nd
+
+            pw = cand0.interface_width if wset else float(grid.typical_discretization)
+            dmask, its, nsel = rec["dilation"]
+            reqs.append(f"c04 iterations {fbits(float(pw))}")
+            expect.append(("iterations", case, int(its)))
+            ref = int(np.sum(_nd.binary_dilation(dmask, iterations=1 + int(2 * pw))))
+            ck.count("fit_region_checked")
+            if rec.get("n_residuals") != ref or nsel != ref:
+                ck.mismatch("c04-refine", f"fit region has {rec.get('n_residuals')} cells; the candidate's image dilated 1 + int(2 w) = {1 + int(2 * pw)} times has {ref}", case)
         pax = {ax: (lo, L) for ax, lo, L in periodic_axes(grid)}
         axes = " ".join(f"{fbits(pax[a][0])}:{fbits(pax[a][1])}" if a in pax else "-" for a in range(grid.dim))
         head = f"{grid.dim} {modes} {int(adjust)} {len(cons)} " + " ".join(map(str, cons))
@@ -241,7 +266,13 @@ def run_cases(ck: Check, n: int):
         if len(ck.samples) < 3:
             ck.sample({**case, "x0": rec["x0"].tolist(), "cost_start": rec["cost0"], "cost_end": rec["cost_x"]})
     outs = run_driver(reqs)
-    for (case, rec, got, grid), out in zip(expect, outs):
+    for item, out in zip(expect, outs):
+        if item[0] == "iterations":
+            _, case, its = item
+            if out.strip() != f"ok {its}":
+                ck.mismatch("c04-refine", f"binary_dilation called with iterations={its}; model: {out}", case)
+            continue
+        case, rec, got, grid = item
         if not out.startswith("ok"):
             ck.mismatch("c04-refine", f"model answered {out[:80]}", case)
             continue
